@@ -384,10 +384,16 @@ func c08RenderFile(name string, imports []string, blocks []*App, indent string, 
 				r.params(ep.Params, ek)
 				r.metaInline(ep.Meta, ek)
 			}
-			if len(ep.Stmts) == 0 {
+			switch {
+			case ep.Kind != "event" && len(ep.Meta.Annos) > 0:
+				r.put(":")
+				r.end()
+				r.annos(2, ep.Meta, ek)
+				r.stmts(2, ep.Stmts, sk, false)
+			case len(ep.Stmts) == 0:
 				r.put(": ...")
 				r.end()
-			} else {
+			default:
 				r.put(":")
 				r.end()
 				r.stmts(2, ep.Stmts, sk, false)
